@@ -292,7 +292,7 @@ def block_diagonalize(
                 solve_sylvester = solve_sylvester_KPM(
                     h_0,
                     right_subspaces,
-                    solver_options=solver_options,
+                    solver_options={"eigenvalue_atol": atol, **solver_options},
                 )
 
     # Normalize the Hamiltonian
@@ -1051,6 +1051,8 @@ def solve_sylvester_KPM(
             Tolerance for Hamiltonian rescaling.
         - atol: float
             Accepted precision of the Green's function result in 2-norm.
+        - eigenvalue_atol: float
+            Tolerance for treating energies of the explicit subspaces as equal.
         - max_moments: int
             Maximum number of expansion moments of the Green's function.
         - auxiliary_vectors: np.ndarray
@@ -1102,8 +1104,10 @@ def solve_sylvester_KPM(
         )
 
     vecs_implicit = subspace_eigenvectors[-1]
+    # The accuracy of the Green's function (`atol`) says nothing about which explicit
+    # energies count as equal.
     solve_sylvester_explicit = solve_sylvester_diagonal(
-        eigs, vecs_implicit, atol=solver_options.get("atol", 1e-12)
+        eigs, vecs_implicit, atol=solver_options.get("eigenvalue_atol", 1e-12)
     )
 
     def solve_sylvester(Y: np.ndarray, index: tuple[int]) -> np.ndarray:
